@@ -132,6 +132,8 @@ def cases(tier: str, seed: int):
         for d in (-40, -1, 0, 1, 40):
             for closed in (0, 1):
                 yield f"@big:{k}:{d}:{closed}"
+    for n in (50, 400, 1200, 5000):
+        yield f"@many:{n}"
     yield from seqs(base)
     if tier == "quick":
         first = ALPHABET[seed % 7]
@@ -177,9 +179,45 @@ def evaluate_big(spec: str) -> R:
     return r
 
 
+def evaluate_many(spec: str) -> R:
+    """n closed ignore blocks in a row, each hiding a tag, and visible tags before and after them: in a snippet file (read in full) through
+    lint, and as a text through the reader and through annotate's header search."""
+    import json
+
+    from ..cli import run_cli
+    from ..core import fresh_dir
+
+    r = R()
+    n = int(spec.split(":")[1])
+    blocks = "".join(f"# {START}\n# SPDX-License-Identifier: ISC\n# {END}\n" for _ in range(n))
+    text = "# SPDX-SnippetBegin\n# SPDX-SnippetCopyrightText: 2001 Before\n" + blocks + "# SPDX-License-Identifier: MIT\n# SPDX-SnippetEnd\ncode = 1\n"
+    root = fresh_dir("c12")
+    (root / "f.py").write_text(text)
+    out = run_cli(["--root", str(root), "--no-multiprocessing", "lint", "--json"])
+    data = json.loads(out.stdout) if out.stdout.startswith("{") else None
+    r.validated = 1
+    want = (["MIT"], ["SPDX-SnippetCopyrightText: 2001 Before"])
+    if data is None or out.exc:
+        r.violation("many-blocks-lint-failed", f"{n} ignore blocks in a snippet file: {out.brief()}")
+    else:
+        f = [x for x in data["files"] if x["path"] == "f.py"]
+        got = (sorted(x["value"] for x in f[0]["spdx_expressions"]), sorted(x["value"] for x in f[0]["copyrights"])) if f else None
+        if got != want or data["non_compliant"]["read_errors"]:
+            r.violation("many-blocks-misread", f"{n} ignore blocks in a snippet file: lint reads {got}, read errors {data['non_compliant']['read_errors']}; expected {want}")
+    out = run_cli(["--root", str(root), "annotate", "--copyright", "Zed Z", "--year", "2020", str(root / "f.py")])
+    if out.exc or out.exit_code not in (0, 1):
+        r.violation("many-blocks-annotate-failed", f"annotate on a file with {n} ignore blocks: {out.brief()}")
+    r.evals = 2
+    r.outcome = "cli-many"
+    r.tags.append("cli")
+    return r
+
+
 def evaluate_cli(toks: str) -> R:
     if toks.startswith("big:"):
         return evaluate_big(toks)
+    if toks.startswith("many:"):
+        return evaluate_many(toks)
     """A file holding the rendered sequence is linted; what lint attributes to
     it must equal the tags the reference machine sees outside blocks."""
     import json
